@@ -246,7 +246,9 @@ func ProofsSigAll(proofs cashu.Proofs) bool {
 	for _, proof := range proofs {
 		secret, err := nut10.DeserializeSecret(proof.Secret)
 		if err != nil {
-			return false
+			// not a NUT-10 secret. Keep looking at the rest of
+			// the proofs, any of them could have the SIG_ALL flag
+			continue
 		}
 
 		if IsSigAll(secret) {
